@@ -7,6 +7,16 @@ namespace Circus.Core
 
 def excVal (name : String) : Val := .exc (.other name)
 
+def addObj (o : PObj) : M Unit := modS fun s => { s with objs := s.objs ++ [o] }
+
+/-- `rm_watcher`: out of the dict and out of the list -/
+def unregisterWatcher (uid : Nat) (key : String) : M Unit :=
+  modA fun a => { a with names := a.names.filter (·.1 ≠ key), watchers := a.watchers.filter (· ≠ uid) }
+
+def setStopping : M Unit := modA fun a => { a with stopping := true }
+def setRestarting : M Unit := modA fun a => { a with restarting := true, stopping := true }
+def setLoopStop (b : Bool) : M Unit := modA fun a => { a with loopStop := b }
+
 def pollsOf (gtMs : Nat) : Nat := (gtMs + 99) / 100
 
 /-! ### Watcher.kill_process -/
@@ -79,16 +89,15 @@ def spawnTry (rec : Rec) (wuid : Nat) : Nat → M SpawnRes
       | none => spawnTry rec wuid tries
       | some pid =>
         let now ← nowMs
-        modS fun s => { s with objs := s.objs ++ [{ pid := pid, wid := wid, started := now }] }
+        addObj { pid := pid, wid := wid, started := now }
         emit (.spawn pid w.name wid)
         modW wuid fun w => { w with pids := w.pids ++ [pid] }
         let r ← callHook wuid "after_spawn"
         if !r then
           -- called without yield: detached; the worker stays registered until the kill is done
-          let tid ← freshId
-          modS fun s => { s with tops := s.tops ++ [{ tid := tid, cbs := [.popProc wuid pid] }] }
+          let tid ← newTop [.popProc wuid pid]
           rec (.call (.killProcess wuid pid none none) (.top tid))
-          modS fun s => { s with tops := s.tops.map fun t => if t.tid = tid then { t with armed := true } else t }
+          armTop tid
           pure .rFalse
         else
           notify wuid "spawn" (some pid)
@@ -294,16 +303,16 @@ def arbStartAfterStart (_rec : Rec) (rest : List Nat) (wt : Waiter) : M Unit := 
 def arbStopTail (rec : Rec) (wt : Waiter) : M Unit := do
   -- loop.add_callback(self.loop.stop): the loop finishes the callbacks already queued (the
   -- future's own ones: release, reply), returns, and Arbiter.start() then closes the sockets
-  modA fun a => { a with loopStop := true }
+  setLoopStop true
   deliver rec wt .unit
 
 def arbStop (rec : Rec) (wt : Waiter) : M Unit := do
-  modA fun a => { a with stopping := true }
+  setStopping
   let ws ← iterWatchers false
   await rec (.arbStopWatchers ws true) .quitAfterStop wt
 
 def arbRestartInside (rec : Rec) (wt : Waiter) : M Unit := do
-  modA fun a => { a with restarting := true, stopping := true }
+  setRestarting
   let ws ← iterWatchers false
   await rec (.arbStopWatchers ws true) .quitAfterStop wt
 
@@ -326,9 +335,8 @@ def manageWatchers (rec : Rec) (wt : Waiter) : M Unit := do
 
 def rmWatcher (rec : Rec) (uid : Nat) (nostop : Bool) (wt : Waiter) : M Unit := do
   let w ← getW uid
-  modA fun a => { a with names := a.names.filter (·.1 ≠ lower w.name) }
   notify uid "remove" none
-  modA fun a => { a with watchers := a.watchers.filter (· ≠ uid) }
+  unregisterWatcher uid (lower w.name)
   if !nostop then await rec (.stop_ uid false) .ignore wt else deliver rec wt .unit
 
 /-! ### the interpreter -/
